@@ -157,6 +157,7 @@ func runC07(c *Ctx) {
 	}
 	checkClassifierAgreement(c)
 	checkFeePlumbing(c)
+	checkInputSourceLifetime(c, "C07-R4")
 }
 
 // countsChange: v is (a conversion of) a phi merging len(txOuts) and len(txOuts)+1.
